@@ -136,6 +136,10 @@ class VArr:
         self.arr = arr
 
 
+class VArrN0(VArr):
+    """mutable list whose entry 0 is None and every other entry an int (`offset = [None, start]` tables indexed from 1)"""
+
+
 class VArr2:
     """mutable list of lists of ints: length, row lengths (Array Int Int), rows (Array Int (Array Int Int))"""
 
@@ -640,6 +644,10 @@ class Engine:
             L = self.fresh(base + '_len')
             self.assume(L >= 0)
             return VArr(L, self.fresh(base + '_arr', z3.ArraySort(z3.IntSort(), z3.IntSort())))
+        if ty == 'intlist_none0':
+            L = self.fresh(base + '_len')
+            self.assume(L >= 1)
+            return VArrN0(L, self.fresh(base + '_arr', z3.ArraySort(z3.IntSort(), z3.IntSort())))
         if ty == 'intlist2':
             L = self.fresh(base + '_len')
             self.assume(L >= 0)
@@ -677,6 +685,9 @@ class Engine:
             return self.fresh_obj(base, ty[4:])
         if ty.startswith('newobj:'):
             return VObj(ty[7:])            # the object under construction: no field yet, no invariant yet
+        if ty.startswith('tuple1:'):
+            # a one-element list holding a tuple, e.g. [(u, v)]
+            return VTuple([VTuple([self.fresh_of_type('{}_0_{}'.format(base, i), t) for i, t in enumerate(ty[7:].split(','))], 'tuple')], 'list')
         if ty.startswith('tuple:'):
             return VTuple([self.fresh_of_type('{}_{}'.format(base, i), t) for i, t in enumerate(ty[6:].split(','))], 'tuple')
         if ty.startswith('const:'):
@@ -827,7 +838,10 @@ class Engine:
                 else:
                     raise Unsupported('no declared type for parameter ' + nme)
             env[nme] = self.fresh_of_type(nme, ty)
-        if args.vararg or args.kwarg:
+        if args.vararg and types.get(args.vararg.arg, '').startswith('tuple:') and not args.kwarg:
+            # def f(self, *index) verified for a declared shape of the argument tuple (one contract variant per shape)
+            env[args.vararg.arg] = self.fresh_of_type(args.vararg.arg, types[args.vararg.arg])
+        elif args.vararg or args.kwarg:
             raise Unsupported('*args/**kwargs in function under contract')
         for nme, ty in c.get('closure_vars', {}).items():       # free variables of a nested function
             env[nme] = self.fresh_of_type(nme, ty)
@@ -852,7 +866,7 @@ class Engine:
         if isinstance(v, VParities):
             return VParities(v.aug)
         if isinstance(v, VArr):
-            return VArr(v.length, v.arr)
+            return type(v)(v.length, v.arr)
         if isinstance(v, VArr2):
             return VArr2(v.length, v.rowlen, v.rows, v.present)
         if isinstance(v, VSet2):
@@ -912,6 +926,11 @@ class Engine:
                     continue
                 g = self.spec_eval(cond, {**old, '__old__': old})
                 self.oblige('raises-iff', 'normal exit although {} is promised when [{}]'.format(exc, cond), znot(toz(g)) if not isinstance(g, bool) else (not g), node.lineno)
+            for h in c.get('post_hints', []):         # ghost lemma steps before the postconditions: proved (auxiliary), then available
+                try:
+                    self.oblige('hint', h, self.spec_eval(h, post_env), node.lineno, decisive=False)
+                except SpecError as se:
+                    self.oblige('hint', '{} [not expressible: {}]'.format(h, se), False, node.lineno, decisive=False)
             for i, e in enumerate(c.get('ensures', [])):
                 try:
                     g = self.spec_eval(e, post_env)
@@ -1199,7 +1218,7 @@ class Engine:
             return v
         if isinstance(v, VArr):
             v.length = self.fresh(name + '_len')
-            self.pc.append(v.length >= 0)
+            self.pc.append(v.length >= (1 if isinstance(v, VArrN0) else 0))
             v.arr = self.fresh(name + '_arr', v.arr.sort())
             return v
         if isinstance(v, VTerms):
@@ -1245,6 +1264,11 @@ class Engine:
             return self.fresh(name)
         if isinstance(v, str):
             return self.fresh(name, z3.StringSort())
+        if isinstance(v, VTuple) and v.kind == 'list' and len(v.items) >= 1 and v.items[0] is None \
+                and all(isinstance(x, int) or (is_z3(x) and z3.is_int(x)) for x in v.items[1:]):
+            L = self.fresh(name + '_len')
+            self.pc.append(L >= 1)
+            return VArrN0(L, self.fresh(name + '_arr', z3.ArraySort(z3.IntSort(), z3.IntSort())))
         if isinstance(v, VTuple) and v.kind == 'list' and all(isinstance(x, int) or (is_z3(x) and z3.is_int(x)) for x in v.items):
             # a list of ints that the loop may grow: from here on (length, array)
             L = self.fresh(name + '_len')
@@ -2078,6 +2102,14 @@ class Engine:
             if not getattr(self, 'in_spec', False):
                 self.oblige('hazard', 'index in bounds: {}'.format(ast.unparse(e)), z3.And(i >= -n, i < n), e.lineno)
             ii = z3.If(i >= 0, i, n + i)
+            if base.items[0] is None and n >= 2 and all(x is not None for x in base.items[1:]):
+                # a 1-based table under construction ([None, start, ...]): entry 0 is None
+                if not getattr(self, 'in_spec', False) and self.branch(ii == 0):
+                    return None
+                r = toz(base.items[-1])
+                for k in range(n - 2, 0, -1):
+                    r = z3.If(ii == k, toz(base.items[k]), r)
+                return r
             tz = (lambda x: z3.StringVal(x)) if all(isinstance(x, str) for x in base.items) else toz
             r = tz(base.items[-1])
             for k in range(n - 2, -1, -1):
@@ -2088,7 +2120,10 @@ class Engine:
             if getattr(self, 'in_spec', False):
                 # in contract expressions list indices are plain (non-negative) positions: no python wrap-around
                 return wrap(sel(base.arr, toz(idx)))
-            return wrap(sel(base.arr, self.norm_index(idx, base.length, e)))
+            pos = self.norm_index(idx, base.length, e)
+            if isinstance(base, VArrN0) and self.branch(pos == 0):
+                return None
+            return wrap(sel(base.arr, pos))
         if isinstance(base, (VSeq, VMList)):
             t = base.term
             if t.sort() == specs.ISeq:
@@ -2196,7 +2231,8 @@ class Engine:
                 # (tuple([lit for c in ct for lit in c]) for ct in product(*[T[l] for l in clause])): the distribution of
                 # the CNFs T[l] over the clause - one output clause per choice of one clause from every T[l]
                 return VSeq(specs.cdist_tab(dom.arr, dom.length, dom.clause))
-            raise Unsupported('comprehension over a starred call')
+            if isprod or not isinstance(dom, VTuple):
+                raise Unsupported('comprehension over a starred call')
         if isinstance(g.iter, ast.Call) and isinstance(g.iter.func, ast.Name) and g.iter.func.id == 'zip' and len(g.iter.args) == 2 \
                 and isinstance(g.target, ast.Tuple) and len(g.target.elts) == 2 and 'zip' not in env:
             x, y = [t.id for t in g.target.elts]
@@ -2509,9 +2545,15 @@ class Engine:
                                 (('str', v) if isinstance(v, str) and not v.startswith('<') else str_choice_id(v)))
                 return VFmt(t, args)
             return '<formatted>'
-        if any(isinstance(a, ast.Starred) for a in e.args):
-            raise Unsupported('star args')
-        args = [self.eval(a, env) for a in e.args]
+        args = []
+        for a in e.args:
+            if isinstance(a, ast.Starred):
+                sv = self.eval(a.value, env)
+                if not isinstance(sv, VTuple):
+                    raise Unsupported('star args')
+                args.extend(sv.items)             # f(*t) for a tuple of known length
+            else:
+                args.append(self.eval(a, env))
         kw = {k.arg: self.eval(k.value, env) for k in e.keywords}
         if isinstance(f, tuple) and f[0] == 'method' and f[2] == 'extend' and isinstance(f[1], VTuple) and f[1].kind == 'list' \
                 and len(args) == 1 and isinstance(args[0], VSeq) and args[0].sortname == 'CSeq' and isinstance(e.func.value, ast.Name) \
@@ -2729,7 +2771,16 @@ class Engine:
                 sv2 = z3.Solver()
                 sv2.set('timeout', 1500)
                 sv2.add(self.pc[:n_before])
-                if sv2.check() != z3.unsat:
+                dead = sv2.check() == z3.unsat
+                if not dead:
+                    # the path may already be dead before the call (a failed hazard / precondition earlier on it, assumed after
+                    # being obliged) without the bare solver seeing it: retry with the ground lemma instances
+                    sv3 = z3.Solver()
+                    sv3.set('timeout', 5000)
+                    sv3.add(self.pc[:n_before])
+                    sv3.add(specs.instances(list(self.pc[:n_before])))
+                    dead = sv3.check() == z3.unsat
+                if not dead:
                     raise VacuousContract('the postcondition of {} contradicts the state at its call site (line {}): '
                                           'missing `modifies` frame or inconsistent contract'.format(key[1], node.lineno))
         return res
@@ -2968,7 +3019,7 @@ class Engine:
             if meth == 'getvalue' and not args:
                 return VNested(o.trace)
             raise Unsupported('method {} of a text stream'.format(meth))
-        f = LIST_METHODS.get((type(o).__name__, meth))
+        f = next((LIST_METHODS[(k.__name__, meth)] for k in type(o).__mro__ if (k.__name__, meth) in LIST_METHODS), None)
         if f:
             return f(self, node, o, *args, **kw)
         if isinstance(o, str) and meth == 'format':
@@ -3154,6 +3205,20 @@ def sf_forall_int(eng, node, env):
 sf_forall_int.raw = True
 
 
+def sf_exists_int(eng, node, env):
+    """exists(lambda k: body) over ints"""
+    lam = node.args[0]
+    eng.qcount = getattr(eng, 'qcount', 0) + 1
+    vs = [z3.Int('x!{}!{}'.format(a.arg, eng.qcount)) for a in lam.args.args]
+    e2 = dict(env)
+    for a, v in zip(lam.args.args, vs):
+        e2[a.arg] = v
+    return z3.Exists(vs, toz(eng.eval(lam.body, e2)))
+
+
+sf_exists_int.raw = True
+
+
 def _wrap(fn, ret=None):
     def f(eng, node, *args):
         r = fn(*[_term(a) for a in args])
@@ -3229,7 +3294,7 @@ def sf_mapcall(eng, node, g, n, m, index):
 
 
 SPEC_FUNCS = {
-    'combs2': lambda eng, node, lo, hi: VCombs2(toz(lo), toz(hi)), 'cvar': _wrap(specs.cvar),
+    'combs2': lambda eng, node, lo, hi: VCombs2(toz(lo), toz(hi)), 'cvar': _wrap(specs.cvar), 'degsum': _wrap(specs.degsum),
     'mapcall': sf_mapcall, 'mrow': _wrap(specs.mrow), 'mcol': _wrap(specs.mcol),
     'evnest': _wrap(specs.evnest), 'dedges': _wrap(specs.dedges),
     'yxdom': _wrap(specs.yxdom),
@@ -3257,7 +3322,7 @@ SPEC_FUNCS = {
     'aind': _wrap(specs.aind), 'gadid': sf_gadid,
     'gad': _wrap(specs.gad), 'cdist': _wrap(specs.cdist), 'cdistall': _wrap(specs.cdistall), 'cind': _wrap(specs.cind),
     'satind': _wrap(specs.satind),
-    'old': sf_old, 'implies': sf_implies, 'forall': sf_forall_int, 'created': sf_created, 'final': sf_final,
+    'old': sf_old, 'implies': sf_implies, 'forall': sf_forall_int, 'exists': sf_exists_int, 'created': sf_created, 'final': sf_final,
     'firsts': lambda eng, node, p: VArr(p.length, p.first),
     'imapsub': lambda eng, node, sq, A, n: VSeq(specs.imapsub(_term(sq), as_arr(A).arr, toz(n))),
     'isperm': lambda eng, node, A, n, base: specs.isperm(as_arr(A).arr, toz(n), toz(base)),
@@ -3642,6 +3707,8 @@ def lm_pop(eng, node, o, *a):
         if not o.items:
             raise PyExc('IndexError', node.lineno)
         return o.items.pop()
+    if isinstance(o, VArrN0) and not a and eng.branch(o.length <= 1):
+        raise Unsupported('pop of the None head of a 1-based table')
     if isinstance(o, VArr) and not a:
         eng.oblige('hazard', 'pop from a non-empty list', o.length > 0, node.lineno)
         o.length = o.length - 1
@@ -3713,6 +3780,22 @@ def lib_bisect_right(eng, node, row, x):
     if not isinstance(row, (VRow, VArr)):
         raise Unsupported('bisect_right on {!r}'.format(row))
     n, a = row.length, row.arr
+    if isinstance(row, VArrN0):
+        # entry 0 is None.  bisect_right (lo=0, hi=n; mid=(lo+hi)//2; x < a[mid] ? hi=mid : lo=mid+1) compares x with entry 0
+        # - a TypeError - iff hi comes down to 1, i.e. iff n == 1 or x < a[1] (entry 1 is compared only at mid == 1, and only a
+        # "less" answer there leads to mid == 0).  Otherwise the search runs on entries 1..n-1 only.
+        eng.oblige('hazard', 'bisect_right never compares with the None head (TypeError): the table has an entry 1 and x >= it',
+                   z3.And(n >= 2, toz(x) >= z3.Select(a, 1)), node.lineno)
+        pos = eng.fresh('bisect')
+        k, j = z3.Int('k!bs'), z3.Int('j!bs')
+        eng.pc.append(z3.And(2 <= pos, pos <= n))
+        srt = z3.ForAll([k, j], z3.Implies(z3.And(1 <= k, k < j, j < n), z3.Select(a, k) <= z3.Select(a, j)))
+        eng.pc.append(z3.Implies(srt, z3.And(
+            z3.ForAll([k], z3.Implies(z3.And(1 <= k, k < pos), z3.Select(a, k) <= toz(x))),
+            z3.ForAll([k], z3.Implies(z3.And(pos <= k, k < n), z3.Select(a, k) > toz(x))),
+            # the two boundary instances, spelled out (ground terms for the solver)
+            z3.Select(a, pos - 1) <= toz(x), z3.Implies(pos < n, z3.Select(a, pos) > toz(x)))))
+        return pos
     pos = eng.fresh('bisect')
     k, j = z3.Int('k!bs'), z3.Int('j!bs')
     eng.pc.append(z3.And(0 <= pos, pos <= n))
@@ -3756,6 +3839,10 @@ def lib_random_shuffle(eng, node, lst):
 
 
 def lib_sorted(eng, node, seq, key=None):
+    if isinstance(seq, VTuple) and len(seq.items) == 2 and key is None \
+            and all(isinstance(x, int) or (is_z3(x) and z3.is_int(x)) for x in seq.items):
+        a, b = toz(seq.items[0]), toz(seq.items[1])
+        return VTuple([z3.If(a <= b, a, b), z3.If(a <= b, b, a)], 'list')      # sorted((a, b)) == [min, max]
     if isinstance(seq, VSeq) and seq.sortname == 'ISeq' and key is None and getattr(seq, 'distinct_in', None) is not None:
         # sorted copy of k pairwise distinct values of a range: strictly increasing, same bounds, same length
         lo, hi = seq.distinct_in
@@ -3885,6 +3972,22 @@ LIBRARY['collections.OrderedDict'] = lambda eng, node, *a: VOpaque('OrderedDict'
 LIBRARY['copy.copy'] = lib_copy
 LIBRARY['copy'] = lib_copy
 LIBRARY['bisect.bisect_right'] = lib_bisect_right
+def lm_iseq_index(eng, node, o, x):
+    """list.index(x) on a sequence of ints: ValueError iff x does not occur, otherwise the FIRST position holding x"""
+    t = o.term
+    if t.sort() != specs.ISeq:
+        raise Unsupported('index() on a non-integer sequence')
+    n, xv = specs.ilen(t), toz(x)
+    k = z3.Int('k!ix')
+    occurs = z3.Exists([k], z3.And(0 <= k, k < n, specs.iget(t, k) == xv))
+    if not eng.branch(occurs):
+        raise PyExc('ValueError', node.lineno)
+    pos = eng.fresh('index')
+    eng.pc.append(z3.And(0 <= pos, pos < n, specs.iget(t, pos) == xv))
+    eng.pc.append(z3.ForAll([k], z3.Implies(z3.And(0 <= k, k < pos), specs.iget(t, k) != xv)))
+    return pos
+
+
 def lm_tuple_index(eng, node, o, x):
     """list.index(x) on a concrete list of scalars with a symbolic x: first equal position, ValueError when absent"""
     if not all(isinstance(i, (int, str)) and not isinstance(i, bool) for i in o.items):
@@ -3901,7 +4004,7 @@ def lm_tuple_index(eng, node, o, x):
     return r
 
 
-LIST_METHODS = {('VTuple', 'index'): lm_tuple_index, ('VStr', 'strip'): lm_str_strip, ('VStr', 'split'): lm_str_split, ('VStr', 'isascii'): lm_str_pred,
+LIST_METHODS = {('VTuple', 'index'): lm_tuple_index, ('VSeq', 'index'): lm_iseq_index, ('VStr', 'strip'): lm_str_strip, ('VStr', 'split'): lm_str_split, ('VStr', 'isascii'): lm_str_pred,
                 ('VStr', 'isdigit'): lm_str_pred, ('VStr', 'startswith'): lm_str_pred, ('VStr', 'lstrip'): lm_str_strip,
                 ('VStr', 'rstrip'): lm_str_strip, ('VOpaqueFile', 'readlines'): lm_readlines, ('VArr2', 'get'): lm_dict_get, ('VRow', 'insert'): lm_row_insert, ('VRow', 'remove'): lm_row_remove, ('VArr2', 'append'): lm_arr2_append,
                 ('VSet2', 'add'): lm_set_add, ('VSet2', 'remove'): lm_set_remove,('VTuple', 'append'): lm_append, ('VCounted', 'append'): lm_append, ('VMList', 'append'): lm_append, ('VArr', 'append'): lm_append,
